@@ -63,7 +63,7 @@ def gen_cases(rng, n_dict, n_par, thorough):
         dups = pol in (1, 2) or (k % 8 == 3)              # k%8==3: duplicates under None -> ValueError
         form = ["list", "generator", "file"][k % 3]
         es = rwlib.gen_events(rng, rng.choice([1, 2, 3, 5, 8, 13, 40 if thorough else 20]),
-                              n_cue_alpha=rng.randint(3, 9), n_out_alpha=rng.randint(1, 5),
+                              n_cue_alpha=rng.choice([3, 5, 9, 24]), n_out_alpha=rng.choice([1, 3, 5, 13, 21]),
                               max_cues=rng.choice([2, 4, 12]), max_outs=rng.choice([1, 3, 6]),
                               dups=dups, file_form=(form == "file"))
         cue_names = sorted({c for cs_, _ in es for c in cs_})
@@ -75,7 +75,7 @@ def gen_cases(rng, n_dict, n_par, thorough):
         pol = [0, 1, 2][k % 3]
         dups = pol in (1, 2)
         es = rwlib.gen_events(rng, rng.choice([1, 2, 3, 5, 8, 13, 40 if thorough else 17]),
-                              n_cue_alpha=rng.randint(3, 9), n_out_alpha=rng.randint(1, 6),
+                              n_cue_alpha=rng.choice([3, 5, 9, 24]), n_out_alpha=rng.choice([1, 3, 6, 13, 21]),
                               max_cues=rng.choice([2, 4, 12]), max_outs=rng.choice([1, 3, 6]),
                               dups=dups, file_form=True)
         p = rwlib.gen_params(rng)
@@ -229,7 +229,7 @@ def run(ctx):
     if ctx.replay:
         d = ctx.replay["detail"]
         rep.note("replay", d.get("case"))
-    cases = gen_cases(ctx.rng, 240 if ctx.thorough else 96, 480 if ctx.thorough else 96, ctx.thorough)
+    cases = gen_cases(ctx.rng, 400 if ctx.thorough else 120, 900 if ctx.thorough else 240, ctx.thorough)
     rep.lap("generate")
     nbad, enc, mouts = check_cases(ctx, cases)
     rep.lap("learners")
